@@ -16,19 +16,22 @@ REQUIRED_THEOREMS = [
     'C14_regimens', 'C14_regimens_own', 'C14_regimen_amount', 'C14_covariates_aligned',
     'C14_irrelevant_rows', 'C14_irrelevant_rows_insert', 'C14_foreign_columns', 'C14_irrelevant_rows_ids',
     'C14_id_types', 'C14_id_types_int_str', 'C14_id_types_int_flt', 'C14_set_data',
-    'C14_posterior', 'C14_posterior_partial', 'C14_unsorted_counterexample',
-    'C14_single_individual_counterexample', 'C14_selector_counterexample']
-RULE = ('long-format frames with 1-5 individuals (int / float / str / mixed-object ID columns, IDs that '
-        'coincide as strings), 1-3 outputs mapped to observables (explicit / identity / automatic map), '
-        'unbalanced and tied times, rows with missing value / time, unrelated observables, foreign columns, '
-        'renamed keys, dose rows with / without duration, covariate rows; layouts: individual blocks, random '
-        'interleaving that keeps every (individual, observable) time-ordered, globally time-sorted, fully '
-        'shuffled; with / without population model (pooled / heterogeneous / log-normal / Gaussian blocks, '
-        'covariate-dependent blocks), fixed parameters, both set-up orders; toy mechanistic model with a '
-        'closed-form dose response, PKPD library model on the reference integrator for a few cases. '
-        'non-trivial = >=2 individuals and (interleaved or shuffled layout, or dose rows, or covariates, or '
-        'missing cells); distinct = distinct (layout, id type, #ids, #outputs, population blocks, dosing mode, '
-        'fixed, selector)')
+    'C14_sorted_rows', 'C14_row_order_irrelevant', 'C14_posterior_irrelevant_rows',
+    'C14_posterior', 'C14_posterior_exists', 'C14_posterior_of_frame', 'C14_prefix_posterior_partial',
+    'C14_unsorted_counterexample', 'C14_single_individual_counterexample', 'C14_selector_counterexample']
+RULE = ('long-format frames with 1-5 (sometimes 11) individuals (int / float / str / mixed-object ID columns, IDs '
+        'that coincide as strings, IDs whose string order differs from their order of appearance), 1-3 outputs '
+        'mapped to observables (explicit / identity / automatic map), unbalanced and tied times, rows with missing '
+        'value / time, unrelated observables, foreign columns, renamed keys, arbitrary index labels (permuted, '
+        'strided, duplicated), numbers given as text, categorical / nullable column dtypes, dose rows with / '
+        'without duration, covariate rows; layouts: individual blocks, random interleaving, globally time-sorted, '
+        'fully shuffled (rows of an individual in any time order); with / without population model (pooled / '
+        'heterogeneous / log-normal / Gaussian blocks, covariate-dependent blocks), fixed parameters, both set-up '
+        'orders, a discarded earlier set_data; every individual selected by its string key and by the value its '
+        'ID has in the frame; toy mechanistic model with a closed-form dose response, PKPD library model on the '
+        'reference integrator for a few cases. non-trivial = >=2 individuals and (interleaved / sorted / shuffled '
+        'layout, or dose rows, or covariates, or missing cells); distinct = distinct (layout, id type, #ids, '
+        '#outputs, population blocks, dosing mode, fixed, set-up order)')
 ASSUMPTIONS = [
     'the ID column has no missing cells; float IDs have integer values below 1e15 (printed as "n.0")',
     'observable names are strings (a numeric observable column is the recorded finding C14-observable-dtype)',
@@ -42,23 +45,7 @@ ASSUMPTIONS = [
     'posterior uses chi.LogLikelihood / chi.HierarchicalLogLikelihood directly']
 
 KINDS = c04.KINDS
-# which variant of the three recorded deviations the tree under test shows (True = the code as recorded:
-# frame order handed over, bare single likelihood, selector compared as it is); decided at run start
-LEGACY = [True, True, True]
 SIM_LOG = []          # (regimen events | None, times) of every DoseToy.simulate call
-RECORDED_TAGS = ('C14.rows_not_time_ordered', 'C14.population_single_individual', 'C14.select_by_original_id')
-
-
-def kspec(ctx, tag, ok, inp, detail=None):
-    """ctx.spec for the aspects that have a recorded finding: core.Ctx keeps at most 200 failing checks, so
-    only the first few reproductions of a recorded finding are stored (all are counted) — an unlisted failure
-    later in the run must never be crowded out"""
-    if not ok:
-        seen = ctx.extra.setdefault('recorded_finding_reproductions', {})
-        seen[tag] = seen.get(tag, 0) + 1
-        if seen[tag] > 3:
-            return False
-    return ctx.spec(tag, ok, inp, detail)
 
 
 # ----------------------------------------------------------------------------------------------
@@ -172,7 +159,7 @@ def merge_keep_order(rng, lists):
 
 def gen_case(rng, layout=None, force=None):
     force = force or {}
-    n_ids = int(force.get('n_ids', rng.choice([1, 2, 2, 3, 3, 4, 5])))
+    n_ids = int(force.get('n_ids', rng.choice([1, 2, 2, 3, 3, 4, 5, 11])))
     id_type = force.get('id_type', ['int', 'str', 'float', 'strnum', 'mixed', 'merge'][int(rng.integers(6))])
     layout = layout or LAYOUTS[int(rng.choice(4, p=[0.25, 0.35, 0.15, 0.25]))]
     n_out = int(force.get('n_out', rng.choice([1, 1, 2, 3])))
@@ -306,7 +293,9 @@ def gen_case(rng, layout=None, force=None):
         'toy_seed': int(rng.integers(1000)), 'outputs_arg': outputs_arg, 'outputs': outputs,
         'map_mode': map_mode, 'obs_of': obs_of, 'pop': pop, 'cov_obs': cov_obs, 'cov_mode': cov_mode,
         'dosing': dosing, 'user_regimen': user_regimen, 'fixed_bottom': fixed_bottom, 'fixed_top': fixed_top,
-        'order': order, 'eval_seed': int(rng.integers(1 << 30)), 'model': 'toy'}
+        'order': order, 'eval_seed': int(rng.integers(1 << 30)), 'model': 'toy',
+        'frame_mode': [None, None, None, None, 'numeric_as_string', 'column_dtypes'][int(rng.integers(6))],
+        'pre_set': bool(rng.random() < 0.15)}
 
 
 # ----------------------------------------------------------------------------------------------
@@ -350,6 +339,21 @@ def make_frame(case):
         df.index = np.arange(len(df)) * 3 + 7
     elif mode == 3:
         df.index = [0] * len(df)            # duplicate labels, as after pd.concat without ignore_index
+    fm = case.get('frame_mode')
+    if fm == 'numeric_as_string':
+        # numbers read as text (pd.to_numeric in _clean_data); repr round-trips a double exactly
+        for col in (keys['time_key'], keys['value_key'], keys['dose_key'], keys['dose_duration_key']):
+            if col in df:
+                df[col] = pd.Series([None if pd.isna(x) else repr(float(x)) for x in df[col]], dtype=object,
+                                    index=df.index)
+    elif fm == 'column_dtypes':
+        # categorical / nullable extension dtypes
+        if len(kinds) == 1 and 'int' in kinds:
+            df[keys['id_key']] = df[keys['id_key']].astype('Int64' if crng.random() < 0.5 else 'category')
+        elif len(kinds) == 1:
+            df[keys['id_key']] = df[keys['id_key']].astype('category')
+        df[keys['obs_key']] = df[keys['obs_key']].astype('category')
+        df[keys['time_key']] = df[keys['time_key']].astype('Float64')
     return df
 
 
@@ -442,6 +446,12 @@ def build_controller(chi, case, frame=None):
             c.set_population_model(make_pop(chi, case['pop']))
     except Exception as e:  # noqa
         return None, ('setup', e)
+    if case.get('pre_set'):
+        # an earlier set_data with other (possibly unusable) data must leave nothing behind
+        try:
+            c.set_data(frame.iloc[::-1].iloc[:max(1, len(frame) // 2)], **set_data_kwargs(case))
+        except Exception:  # noqa
+            pass
     try:
         c.set_data(frame, **set_data_kwargs(case))
     except Exception as e:  # noqa
@@ -586,7 +596,7 @@ def run_case(ctx, chi, case, label='gen'):
     if err is not None:
         kind = core.errkind(err[1])
         ctx.errkinds.add(kind)
-        mo = ctx.model('C14.run', *LEGACY, cfg, rows, None, shared)
+        mo = ctx.model('C14.run', cfg, rows, None, shared)
         ctx.agree('C14.set_data', [kind, 'set_data'], mo[:2], inp)
         ctx.spec('C14.set_data_accepts_valid_frame', not valid, inp, {'raised': repr(err[1])[:200]})
         return
@@ -597,7 +607,7 @@ def run_case(ctx, chi, case, label='gen'):
     selectors = [None] if case['pop'] is not None else [None] + [s['id'] for s in spec]
     for sel in selectors:
         which = None if case['pop'] is not None else (0 if sel is None else [s['id'] for s in spec].index(sel))
-        mo = ctx.model('C14.run', *LEGACY, cfg, rows, sel, shared)
+        mo = ctx.model('C14.run', cfg, rows, sel, shared)
         if mo[0] == 'ok':
             shared_after = mo[4]
         try:
@@ -619,7 +629,7 @@ def run_case(ctx, chi, case, label='gen'):
                 tag = 'C14.rows_not_time_ordered'
             else:
                 tag = 'C14.builds'
-            kspec(ctx, tag, False, inp, {'raised': outcome, 'selector': sel})
+            ctx.spec(tag, False, inp, {'raised': outcome, 'selector': sel})
             continue
         ctx.spec('C14.builds', True, inp)
         if mo[0] != 'ok':
@@ -705,7 +715,9 @@ def check_posterior(ctx, chi, case, c, post, mo, spec, which, sel):
             try:
                 pc = np.asarray(post.get_log_likelihood().compute_pointwise_ll(xs[0]), float)
                 ph = np.asarray(hl.compute_pointwise_ll(xs[0]), float)
-                ctx.spec('C14.pointwise', core.close(pc, ph), inp, {'controller': pc, 'hand': ph})
+                # measurements that share a time may come in either order (the property does not fix it)
+                ctx.spec('C14.pointwise', len(pc) == len(ph) and core.close(np.sort(pc), np.sort(ph)), inp,
+                         {'controller': pc, 'hand': ph})
             except Exception as e:  # noqa
                 ctx.spec('C14.pointwise', False, inp, {'raised': repr(e)[:200]})
     # ---------------- dosing regimens reported by the controller
@@ -729,7 +741,7 @@ def check_selectors(ctx, chi, case, c, spec):
             continue
         seen.add(rid)
         cell = id_cell(r[0])
-        mo_l = ctx.model('C14.run', *LEGACY, wire_config(case), wire_rows(case),
+        mo_l = ctx.model('C14.run', wire_config(case), wire_rows(case),
                          wire_rows({'rows': [r]})[0][0], None)
         key = ctx.model('C14.key', wire_rows({'rows': [r]})[0][0])[0]
         try:
@@ -743,7 +755,7 @@ def check_selectors(ctx, chi, case, c, spec):
         want_model = mo_l[0] if mo_l[0] != 'ok' else mo_l[3][1][0]
         if not (got != want_model and got.startswith('err') and mo_l[0].startswith('err')):
             ctx.agree('C14.selector', got, want_model, {'case': case, 'selector': r[0]})
-        kspec(ctx, 'C14.select_by_original_id', got == key, {'case': case, 'selector': r[0]},
+        ctx.spec('C14.select_by_original_id', got == key, {'case': case, 'selector': r[0]},
                  {'selector': repr(cell), 'got': got, 'wanted': key})
         if len(seen) >= 3:
             break
@@ -855,6 +867,30 @@ def transform(rng, case, kind):
             return None
         for r in rows:
             r[0] = ['flt', int(r[0][1])]
+    elif kind == 'shuffle_rows':
+        # any order of the rows that keeps the order in which the individuals first appear
+        def appearance(rs):
+            seen = []
+            for r in rs:
+                if r[0] not in seen:
+                    seen.append(r[0])
+            return seen
+        new_rows = None
+        for _ in range(30):
+            cand = [rows[int(k)] for k in rng.permutation(len(rows))]
+            if appearance(cand) == ids_present:
+                new_rows = cand
+                break
+        if new_rows is None:
+            first = [next(k for k, r in enumerate(rows) if r[0] == i) for i in ids_present]
+            rest = [k for k in range(len(rows)) if k not in first]
+            new_rows = [rows[k] for k in first] + [rows[int(k)] for k in rng.permutation(rest)]
+        t['rows'] = new_rows
+        t['layout'] = 'shuffled'
+    elif kind in ('numeric_as_string', 'column_dtypes'):
+        t['frame_mode'] = kind
+    elif kind == 'set_data_twice':
+        t['pre_set'] = True
     elif kind == 'renamed_keys':
         t['keys'] = None if t['keys'] else {'id_key': '#', 'time_key': 'TIME', 'obs_key': 'OBS', 'value_key': 'VAL',
                                             'dose_key': 'AMT', 'dose_duration_key': 'DUR'}
@@ -865,7 +901,8 @@ def check_invariance(ctx, chi, case, rng):
     base, err = posterior_values(chi, case)
     if base is None:
         return
-    for kind in ('unrelated_rows', 'foreign_columns', 'id_dtype', 'id_relabel', 'renamed_keys'):
+    for kind in ('unrelated_rows', 'foreign_columns', 'id_dtype', 'id_relabel', 'renamed_keys', 'shuffle_rows',
+                 'numeric_as_string', 'column_dtypes', 'set_data_twice'):
         t = transform(rng, case, kind)
         if t is None:
             continue
@@ -955,41 +992,38 @@ def corpus(ctx, chi):
         run_case(ctx, chi, b, 'malformed')
 
 
-def detect_variants(ctx, chi):
-    """the Lean model carries the code as it is (`legacy`) and the behaviour C14 demands (`intended`) for the
-    three recorded deviations; chi is probed with the witnesses of the counterexample theorems and the model
-    is driven with the variant chi shows (a repaired tree is then compared with `intended`)"""
-    def outcome(case, sel):
-        c, err = build_controller(chi, case)
-        if err is not None:
-            return core.errkind(err[1])
-        try:
-            c.get_log_posterior() if sel is None else c.get_log_posterior(individual=sel)
-            return 'ok'
-        except Exception as e:  # noqa
-            return core.errkind(e)
-    LEGACY[0] = outcome(base_case(rows=[R(1, 2.0, 'conc', 1.0), R(1, 1.0, 'conc', 2.0)]), None) != 'ok'
-    LEGACY[1] = outcome(base_case(rows=[R(1, 1.0, 'conc', 1.0), R(1, 2.0, 'conc', 2.0)],
-                                  pop=[['pooled', 2, None], ['lognormal', 1, None]]), None) != 'ok'
-    LEGACY[2] = outcome(base_case(rows=[R(1, 1.0, 'conc', 1.0), R(2, 2.0, 'conc', 2.0)]), 2) != 'ok'
-    ctx.extra['variant_of_chi'] = {'rows_in_frame_order(#25)': LEGACY[0], 'bare_single_likelihood(#26)': LEGACY[1],
-                                   'selector_compared_as_is(#18)': LEGACY[2]}
-
-
 def observable_dtype(ctx, chi):
-    """numeric observable names: accepted by the map check (raw values), lost by the masks (string column)"""
-    m = DoseToy(1, 2, 0, dosing=False)
-    c = chi.ProblemModellingController(m, [chi.GaussianErrorModel()])
+    """numeric observable names: the maps are validated against the raw column values, the masks run on the
+    stringified column — explicit map, automatic single-observable map, covariate map"""
+    def n_obs(df, pop=False, **kw):
+        m = DoseToy(1, 2, 0, dosing=False)
+        c = chi.ProblemModellingController(m, [chi.GaussianErrorModel()])
+        if pop:
+            c.set_population_model(chi.ComposedPopulationModel([
+                chi.CovariatePopulationModel(chi.LogNormalModel(n_dim=1),
+                                             chi.LinearCovariateModel(cov_names=['Age'])),
+                chi.PooledModel(n_dim=2)]))
+        c.set_data(df, **kw)
+        c.set_log_prior(make_prior(c.get_n_parameters(), 0))
+        post = c.get_log_posterior() if pop else c.get_log_posterior('1')
+        return [int(v) for v in post.get_log_likelihood().n_observations()]
     df = pd.DataFrame({'ID': [1, 1, 2, 2], 'Time': [1.0, 2.0, 1.0, 2.0], 'Observable': [7, 7, 7, 8],
                        'Value': [1.0, 2.0, 3.0, 4.0]})
-    inp = {'observable_column': [7, 7, 7, 8], 'output_observable_dict': {'out0': 7}}
-    try:
-        c.set_data(df, output_observable_dict={'out0': 7})
-        c.set_log_prior(make_prior(3, 0))
-        n = [int(v) for v in c.get_log_posterior('1').get_log_likelihood().n_observations()]
-        ctx.spec('C14.observable_dtype', n == [2], inp, {'n_observations': n, 'expected': [2]})
-    except Exception as e:  # noqa
-        ctx.spec('C14.observable_dtype', False, inp, {'raised': repr(e)[:200]})
+    dfc = pd.DataFrame({'ID': [1, 1, 2, 2, 1, 2], 'Time': [1.0, 2.0, 1.0, 2.0, np.nan, np.nan],
+                        'Observable': [7, 7, 7, 7, 3, 3], 'Value': [1.0, 2.0, 3.0, 4.0, 0.5, 0.7]})
+    probes = [
+        ('explicit map', df, False, {'output_observable_dict': {'out0': 7}}, [2]),
+        ('automatic map', df[df.Observable == 7], False, {}, [2]),
+        ('covariate map', dfc, True, {'output_observable_dict': {'out0': 7}, 'covariate_dict': {'Age': 3}}, [2, 2]),
+    ]
+    for name, frame, pop, kw, want in probes:
+        inp = {'probe': name, 'observable_column': [int(v) for v in frame['Observable']],
+               'maps': {k: {a: int(b) for a, b in v.items()} for k, v in kw.items()}}
+        try:
+            n = n_obs(frame, pop, **kw)
+            ctx.spec('C14.observable_dtype', n == want, inp, {'n_observations': n, 'expected': want})
+        except Exception as e:  # noqa
+            ctx.spec('C14.observable_dtype', False, inp, {'raised': repr(e)[:200], 'expected': want})
 
 
 # ----------------------------------------------------------------------------------------------
@@ -1048,7 +1082,7 @@ def pkpd_cases(ctx, chi, n):
         except Exception as e:  # noqa
             ctx.spec('C14.builds/pkpd', False, inp, {'raised': repr(e)[:200]})
             continue
-        mo = ctx.model('C14.run', *LEGACY, wire_config(case), wire_rows(case), None, None)
+        mo = ctx.model('C14.run', wire_config(case), wire_rows(case), None, None)
         ctx.agree('C14.get_log_posterior', 'ok', mo[0], inp)
         regs = c.get_dosing_regimens()
         ctx.agree('C14.regimens', [[str(a), events_of(b)] for a, b in regs.items()], mo[2], inp)
@@ -1100,24 +1134,21 @@ def pkpd_cases(ctx, chi, n):
 # ----------------------------------------------------------------------------------------------
 def run(ctx):
     chi = core.import_chi()
-    detect_variants(ctx, chi)
-    corpus(ctx, chi)
-    observable_dtype(ctx, chi)
-    n = 320 if ctx.tier == 'quick' else 4000
-    n_inv = 50 if ctx.tier == 'quick' else 500
+    ctx.guard(corpus, ctx, chi)
+    ctx.guard(observable_dtype, ctx, chi)
+    n = 320 if ctx.tier == 'quick' else 6500
+    n_inv = 50 if ctx.tier == 'quick' else 600
     for i in range(n):
         rng = ctx.sub_rng(i)
         case = gen_case(rng)
-        run_case(ctx, chi, case)
+        ctx.guard(run_case, ctx, chi, case)
         if i < n_inv:
-            inv_case = case if case['layout'] != 'shuffled' else gen_case(ctx.sub_rng(500000 + i), layout='interleaved')
-            check_invariance(ctx, chi, inv_case, ctx.sub_rng(700000 + i))
-    pkpd_cases(ctx, chi, 8 if ctx.tier == 'quick' else 80)
+            ctx.guard(check_invariance, ctx, chi, case, ctx.sub_rng(700000 + i))
+    ctx.guard(pkpd_cases, ctx, chi, 8 if ctx.tier == 'quick' else 100)
 
 
 def replay(ctx, data):
     chi = core.import_chi()
-    detect_variants(ctx, chi)
     inp = data['failing']['input']
     case = inp['case'] if 'case' in inp and 'rows' not in inp else inp
     if 'rows' not in case:
